@@ -9,6 +9,8 @@ proves that it refines this one step by step and that no step touches another re
 ops    : add r n | remove r n | contains r n | grow r n | len r | blen r | cap r
          clone d s | diff a b | intersect a b | merge a b
          iter k r | next k | value k | iterall r | range r stop | all r stop | layout
+         addn r start d count | removen r start d count   (count element operations on start, start+d, …)
+         string r
 -/
 import Golib.Model.C16Bits
 
@@ -38,6 +40,8 @@ inductive Op where
   | iter (k r : Nat) | next (k : Nat) | value (k : Nat) | iterall (r : Nat)
   | range (r : Nat) (stop : Int) | all (r : Nat) (stop : Int)
   | layout
+  | addn (r start d count : Nat) | removen (r start d count : Nat)
+  | str (r : Nat)
 deriving Repr, DecidableEq
 
 def two (f : Nat → Nat → Op) (a b : String) : Option Op := do
@@ -71,12 +75,27 @@ def parseOp (ts : List String) : Option Op :=
       let y ← s.toInt?
       pure (.all x y)
   | ["layout"] => some .layout
+  | ["string", r] => r.toNat?.map .str
+  | ["addn", r, a, d, c] => do
+      let r ← r.toNat?
+      let a ← a.toNat?
+      let d ← d.toNat?
+      let c ← c.toNat?
+      pure (.addn r a d c)
+  | ["removen", r, a, d, c] => do
+      let r ← r.toNat?
+      let a ← a.toNat?
+      let d ← d.toNat?
+      let c ← c.toNat?
+      pure (.removen r a d c)
   | _ => none
 
 /-- `layout`: the word count of every register and the pairs of registers whose backing arrays
 overlap (`lens [l0 l1 …] overlap [i j i' j' …]`).  In the by-value machine nothing can overlap. -/
 def showLayout (lens : List Nat) (pairs : List Nat) : String :=
   s!"lens {showNats lens} overlap {showNats pairs}"
+
+def showSet (xs : List Nat) : String := "{" ++ " ".intercalate (xs.map toString) ++ "}"
 
 /-- Result of one op: `bad` = not applicable to this register kind (the harness answers
 `bad-op` too), `panic`, or new state and printed line. -/
@@ -105,7 +124,8 @@ def bulk (s : St) (a b : Nat) (fb : Bits → Bitmap → Bits) (fm : Bitmap → B
       | .dsz _ => .bad
   | _, _ => .bad
 
-def step (s : St) : Op → Res
+/-- one single operation (the bulk element operations `addn`/`removen` are loops over this) -/
+def step1 (s : St) : Op → Res
   | .add r n =>
     match s.regs[r]? with
     | some (.bits b) =>
@@ -214,6 +234,30 @@ def step (s : St) : Op → Res
     | some (.bits b) => .ok s (showNats (b.bm.range (stopFn stop)))
     | _ => .bad
   | .layout => .ok s (showLayout (s.regs.map fun o => o.words.length) [])
+  | .addn _ _ _ _ => .bad
+  | .removen _ _ _ _ => .bad
+  | .str r =>
+    -- `String()`: the same double loop as `Range` (skipping zero words), printed as `{a b c}`;
+    -- dsz.Bits appends "\nLength: n" (the harness prints the newline as `|`)
+    match s.regs[r]? with
+    | some (.dsz d) => .ok s (showSet (Bitmap.range ⟨d.set⟩ fun _ => true) ++ s!"|Length: {d.length}")
+    | some o => .ok s (showSet (Bitmap.range ⟨o.words⟩ fun _ => true))
+    | none => .bad
+
+/-- `count` times `mk n` for `n = start, start+d, …` (large stream: `for … { x.Add(n) }`); the
+answer is the number of calls that answered `true` -/
+def loopN (mk : Nat → Op) : (count : Nat) → St → (n d hits : Nat) → Res
+  | 0, s, _, _, hits => .ok s (toString hits)
+  | c + 1, s, n, d, hits =>
+    match step1 s (mk n) with
+    | .ok s' out => loopN mk c s' (n + d) d (if out = "true" then hits + 1 else hits)
+    | .bad => .bad
+    | .panic => .panic
+
+def step (s : St) : Op → Res
+  | .addn r a d c => if c = 0 then .bad else loopN (.add r) c s a d 0
+  | .removen r a d c => if c = 0 then .bad else loopN (.remove r) c s a d 0
+  | op => step1 s op
 
 /-- the specification machine run on a list of op lines -/
 def runOps : Option St → List String → List String
